@@ -45,7 +45,7 @@ def gen_plan(seed: int, run: int, tier: str) -> dict:
                 recs = []
                 for _ in range(rng.choice([1, 1, 2, 3])):
                     uid += 1
-                    recs.append({"id": uid, "pad": rng.choice([0, 1, 7, 40, 120, 300]), "mb": rng.random() < 0.4})
+                    recs.append({"id": uid, "pad": rng.choice([0, 1, 7, 40, 120, 300, 300, 4100, 9000]), "mb": rng.random() < 0.4})
                 ops.append({"op": "append", "recs": recs})
             else:
                 ops.append({"op": "read", "from": rng.choice(["zero", "cached", "cached", "last", "beyond", "abs"]), "arg": rng.randint(0, 12)})
